@@ -23,9 +23,11 @@ pub fn standard_plan(tier: Tier, scale: u64) -> Plan {
     let mut families: Vec<(Box<dyn Family>, u8)> = vec![];
     for f in three_man_families() {
         // quick: the bishop / knight sets are judged without their children (their children are
-        // again bishop / knight or bare-king positions of the same complete sets)
+        // again bishop / knight or bare-king positions of the same complete sets); oracles that
+        // are expensive per state (scale >= 2) also judge the queen / rook sets without children
         let minor = f.men.iter().any(|m| m.0 == Kind::B || m.0 == Kind::N);
-        let cd = if tier == Tier::Quick && minor { 0 } else { 1 };
+        let major = f.men.iter().any(|m| m.0 == Kind::Q || m.0 == Kind::R);
+        let cd = if tier == Tier::Quick && (minor || (major && scale >= 2)) { 0 } else { 1 };
         families.push((Box::new(f), cd));
     }
     match tier {
@@ -34,7 +36,7 @@ pub fn standard_plan(tier: Tier, scale: u64) -> Plan {
             families.push((Box::new(CastleFamily { extras: 0, opp_rights: false, opp_to_move: false }), 1));
             families.push((Box::new(CastleFamily { extras: 1, opp_rights: false, opp_to_move: false }), 1));
             families.push((Box::new(CastleFamily { extras: 0, opp_rights: false, opp_to_move: true }), 2));
-            families.push((Box::new(CastleFamily { extras: 1, opp_rights: false, opp_to_move: true }), 1));
+            families.push((Box::new(CastleFamily { extras: 1, opp_rights: false, opp_to_move: true }), if scale >= 4 { 0 } else { 1 }));
             families.push((Box::new(PromoFamily::reduced()), 1));
         }
         Tier::Thorough => {
